@@ -327,6 +327,7 @@ class Interp:
         self.keep_astype = False                   # keep x.astype(t) visible in value forms instead of treating it as the identity
         self.unroll_literal_loops = True           # execute `for row in <literal table>` row by row instead of abstracting the loop
         self.stop_at_calls: set = set()            # dotted callee names at which a top-level path is cut (counts as a return)
+        self.domain_pred = None                    # optional callable(callee, [arg values]) -> True / False / None: a predicate decided by the property's domain
         self.domain_sign = None                    # optional callable(Form) -> +1 / -1 / 0 / None: sign of a difference known from the property's domain
         self.falsy_arith: list = []                # (fi, node, operand, depth): arithmetic on a value assumed falsy (absent optional parameter)
         self.nested_raises: list = []              # raise outcomes inside inlined callees that also have returning paths
@@ -362,6 +363,10 @@ class Interp:
                 v_ = st.env.get(nm)
                 if nm not in self.assumptions and isinstance(v_, Form) and v_.sym_name() == nm and _documented_not_none(fi, nm):
                     st.facts.none.setdefault(v_.key(), False)
+                # a parameter documented as `int` (and nothing else) is an integer in the calls the properties are stated for
+                if nm not in self.assumptions and nm not in self.param_values and nm not in self.param_classes and isinstance(v_, Form) and v_.sym_name() == nm \
+                        and isinstance(x_.annotation, ast.Name) and x_.annotation.id == "int" and st.facts.none.get(v_.key()) is not True:
+                    st.facts.inst.setdefault(v_.key(), frozenset({"int"}))
         self._seed_facts(st)
         # a nested function analysed on its own sees the helper functions its enclosing function defined before it (plain,
         # unconditional `def`s of the enclosing body; their own free names resolve through the same scopes)
@@ -411,6 +416,8 @@ class Interp:
                 st.facts.notinst[k] = frozenset(a[1:])
             elif isinstance(a, tuple) and a and a[0] == "truth":
                 st.facts.truth[k] = bool(a[1])
+                if a[1]:
+                    st.facts.none[k] = False       # a truthy value is not None
             else:
                 st.facts.eq[k] = Const(a) if not isinstance(a, (int, float)) or isinstance(a, bool) else a
                 if a is None:
@@ -692,6 +699,10 @@ class Interp:
                 if lead is not None and lead % n == 0:
                     k = lead // n
                     return [mk_idx(a[2][0], SliceV(NONE if i == 0 else Form.num(i * k), NONE if i == n - 1 else Form.num((i + 1) * k), NONE)) for i in range(n)]
+                if n == 2 and isinstance(a[2][0], Form):
+                    # two equal halves of a vector of unknown (even: split raises otherwise) length: X[:len(X)//2], X[len(X)//2:]
+                    half = mk_fn("floordiv", [mk_fn("len", [a[2][0]]), Form.num(2)])
+                    return [mk_idx(a[2][0], SliceV(NONE, half, NONE)), mk_idx(a[2][0], SliceV(half, NONE, NONE))]
         if isinstance(v, Form):
             a = v.single_atom()
             # np.array([a,b]) - 1 style: elementwise arithmetic over a literal list is kept elementwise
@@ -734,7 +745,41 @@ class Interp:
         self._refine(s.test, b, fi, depth, False)
         self.exec_block(s.body, a, fi, depth)
         self.exec_block(s.orelse, b, fi, depth)
+        if a.live and b.live:
+            self._collapse_zero_guard(s.test, a, b, st, fi, depth)
         self._merge(st, [a, b], s)
+
+    def _collapse_zero_guard(self, test, a, b, st, fi, depth):
+        """`if x != 0: y = f(x, y)` (or `if x:`) where f(0, y) is y: the update is the identity exactly when it is skipped, so f(x, y)
+        describes y on both paths (`if c != 0: pulse = pulse * exp(-1j*c*e)`, `if bias: v = v + bias`)"""
+        t, nz, z = test, a, b
+        if isinstance(t, ast.UnaryOp) and isinstance(t.op, ast.Not):
+            t, nz, z = t.operand, b, a
+        if isinstance(t, ast.Compare) and len(t.ops) == 1 and isinstance(t.ops[0], (ast.NotEq, ast.Eq)) \
+                and isinstance(t.comparators[0], ast.Constant) and t.comparators[0].value == 0 and not isinstance(t.comparators[0].value, bool):
+            if isinstance(t.ops[0], ast.Eq):
+                nz, z = z, nz
+            t = t.left
+        if not isinstance(t, (ast.Name, ast.Attribute)):
+            return
+        try:
+            x = self.eval(t, State(fork_env(st.env), st.facts.copy(), list(st.conds)), fi, depth)
+        except Exception:
+            return
+        if not (isinstance(x, Form) and x.single_atom() is not None and x.single_atom()[0] == "sym"):
+            return
+        if st.facts.none.get(x.key()) is not False and not isinstance(test, ast.Compare):
+            return                     # `if x:` is also false for None
+        xa = x.single_atom()
+        for nm in set(nz.env) & set(z.env):
+            vn, vz = nz.env[nm], z.env[nm]
+            if isinstance(vn, Form) and isinstance(vz, Form) and vn != vz and xa in vn.atoms():
+                try:
+                    at0 = vn.subst(lambda at: Form.num(0) if at == xa else None)
+                except Exception:
+                    continue
+                if isinstance(at0, Form) and at0 == vz:
+                    z.env[nm] = vn
 
     def _merge(self, st, branches, node):
         live = [b for b in branches if b.live]
@@ -992,6 +1037,15 @@ class Interp:
             self._loop_stack_push(cur)
             self.exec_block(s.body, cur, fi, depth)
             exits = self._loop_stack_pop()
+            conts = self._last_conts
+            if conts:
+                # `continue`: those states go on with the next row, together with the state that ran the body to its end
+                for c_ in conts:
+                    c_.live = True
+                nxt = State(cur.env, cur.facts, cur.conds)
+                self._merge(nxt, conts + ([State(fork_env(cur.env), cur.facts.copy(), list(cur.conds))] if cur.live else []), s)
+                nxt.live = True
+                cur = nxt
             if exits:
                 if cur.live:
                     self._log_rewind(marks)
@@ -1012,8 +1066,7 @@ class Interp:
 
     def s_For(self, s, st, fi, depth):
         it = self.eval(s.iter, st, fi, depth)
-        if self.unroll_literal_loops and isinstance(it, TupleV) and len(it.items) <= 32 \
-                and not any(isinstance(x, ast.Continue) for b in s.body for x in ast.walk(b)):
+        if self.unroll_literal_loops and isinstance(it, TupleV) and len(it.items) <= 32:
             res = self._unroll_for(s, it, st, fi, depth)
             if res is not None:
                 st.env, st.facts, st.conds, st.live = res.env, res.facts, res.conds, res.live
@@ -1052,8 +1105,12 @@ class Interp:
         if not hasattr(self, "_loops"):
             self._loops = []
         self._loops.append([])
+        if not hasattr(self, "_conts"):
+            self._conts = []
+        self._conts.append([])
 
     def _loop_stack_pop(self):
+        self._last_conts = self._conts.pop()
         return self._loops.pop()
 
     def s_Break(self, s, st, fi, depth):
@@ -1062,6 +1119,8 @@ class Interp:
         st.live = False
 
     def s_Continue(self, s, st, fi, depth):
+        if getattr(self, "_conts", None):
+            self._conts[-1].append(State(fork_env(st.env), st.facts.copy(), list(st.conds)))
         st.live = False
 
     def s_With(self, s, st, fi, depth):
@@ -1191,6 +1250,11 @@ class Interp:
             if fn == "__is_sequence__" and len(test.args) == 1:
                 v = self.eval(test.args[0], st, fi, depth)
                 return _is_sequence_value(v)
+            if self.domain_pred is not None and fn and not test.keywords:
+                # a fact of the property's domain about a predicate of the inputs (e.g. "the signals are real")
+                dv = self.domain_pred(fn, [self.eval(a_, st, fi, depth) for a_ in test.args])
+                if dv is not None:
+                    return dv
             if fn == "callable" and len(test.args) == 1:
                 v = self.eval(test.args[0], st, fi, depth)
                 if isinstance(v, FuncV):
@@ -1428,6 +1492,18 @@ class Interp:
 
     _PY_SCALARS = {"int", "float", "complex", "bool", "numpy.float64", "numpy.integer", "numpy.floating", "numbers.Number"}
 
+    _INT_CLASSES = frozenset({"int", "integer", "Integral", "bool", "bool_", "intp", "int64", "int32", "uint8", "signedinteger", "unsignedinteger"})
+
+    def _integer_valued(self, v, st):
+        """the value is a whole number on this path: tested with isinstance against integer types only, compared equal to its own
+        int(), or one of the library's integer globals (samples per slot, number of slots)"""
+        if v.sym_name() in ("gv.sps", "gv.N"):
+            return True
+        inst = st.facts.inst.get(v.key())
+        if inst and all(c.split(".")[-1] in self._INT_CLASSES for c in inst):
+            return True
+        return st.facts.truth.get(mk_fn("__integral__", [v]).key()) is True
+
     def _isinstance(self, v, classes, st):
         if any(c.startswith("?") for c in classes):
             unknown = True
@@ -1535,6 +1611,10 @@ class Interp:
             elif isinstance(op, (ast.Eq, ast.NotEq)):
                 iseq = pol if isinstance(op, ast.Eq) else not pol
                 if iseq:
+                    for a, b in ((l, r), (r, l)):
+                        # x == int(x): x is integer-valued on this path, so a later int(x) is x
+                        if isinstance(a, Form) and isinstance(b, Form) and a.const_value() is None and b == mk_fn("int", [a]):
+                            st.facts.truth[mk_fn("__integral__", [a]).key()] = True
                     for a, b in ((l, r), (r, l)):
                         cv = self._const_of(b, st)
                         if isinstance(a, Form) and a.const_value() is None and cv is not _MISSING:
@@ -2643,8 +2723,21 @@ class Interp:
             if isinstance(v, Form) and v.rational() is not None:
                 q = v.rational()
                 return Form.num(int(q))
+            if isinstance(v, Form) and self._integer_valued(v, st):
+                return v           # an integer (guarded by isinstance, or so by the property's domain) is its own int()
+            if isinstance(v, Form):
+                cv = self._concrete(v, st)
+                if isinstance(cv, Fraction) and cv.denominator == 1:
+                    return v       # assumed to have an integer value on this run
             return mk_fn("int", [as_value(v)])
         if name == "isinstance" and len(args) == 2:
+            if isinstance(n, ast.Call) and len(n.args) == 2:
+                try:
+                    dec = self._isinstance(args[0], self._class_names(n.args[1], st, fi, depth), st)
+                except Exception:
+                    dec = None
+                if dec is not None:
+                    return Const(bool(dec))        # `return isinstance(x, T)` in a predicate helper
             return None
         if name == "type" and len(args) == 1:
             if isinstance(args[0], ObjV):
@@ -2858,7 +2951,7 @@ class _ModuleScope:
 _MISSING = object()
 _ELEMENTWISE = {"sqrt", "abs", "absolute", "exp", "log", "log10", "log2", "cos", "sin", "tan", "erfc", "erf", "conj", "real", "imag",
                 "square", "negative", "array", "asarray", "float64"}
-_BUILTIN_TYPES = {"int", "float", "complex", "str", "bool", "list", "tuple", "dict", "set", "bytes", "object", "type",
+_BUILTIN_TYPES = {"int", "float", "complex", "str", "bool", "list", "tuple", "dict", "set", "bytes", "object", "type", "bytearray", "frozenset", "range", "memoryview", "slice",
                   "Exception", "ValueError", "TypeError"}
 _BUILTINS = {"dict", "len", "int", "isinstance", "type", "getattr", "super", "str", "min", "max", "list", "tuple", "zip", "range",
              "abs", "round", "print", "callable", "float", "sum", "map", "dir", "setattr", "delattr", "hasattr", "id", "slice", "next", "enumerate", "reversed"}
